@@ -121,7 +121,7 @@ const FO: &[&str] = &[
 /// their numeric suffixes, a predicate of large arity
 const SPECIAL: &[&str] = &[
     "", ":- 1 < 2. :- 2 > 3. :- 3 > 4.", ":- 1 > 2.", ":- 1 < 2.", ":- 2 > 3. :- 1 < 2.",
-    "p(v9) :- q(v10). p(v10) :- q(b).", "p(v10) :- q(v9).", "p(a10) :- q(a9), q(a1).",
+    "p(v9) :- q(v10). p(v10) :- q(b).", "p(v10) :- q(v9).", "p(a10) :- q(a9), q(a1).", "p(aa) :- q(aB), q(a_c), q(b).", "p(nodea) :- q(nodeA).", "p(nodeA) :- q(nodea), q(zZ), q(zz), q(z_z), q(z0), q(zA).",
     "w(X, X, X, X, X, X, X, X, X, Y) :- q(X), q(Y).", "w(X, X, X, X, X, X, X, X, Y, X) :- q(X), q(Y).", "{w(X, X, X, X, X, X, X, X, X, Y)} :- q(X), q(Y).",
 ];
 
